@@ -317,6 +317,12 @@ func (e *c09Env) run(b behaviour, serial uint32, bind string) c09Result {
 		res.hung = true
 		res.elapsed = time.Since(start)
 	}
+	if b.name == "reply-1.3T" {
+		// the farm still has a (late) datagram to send to this call's port: let it go before the port number can be reused
+		if rest := e.T*13/10 + 10*time.Millisecond - time.Since(start); rest > 0 {
+			time.Sleep(rest)
+		}
+	}
 	return res
 }
 
@@ -390,7 +396,11 @@ func c09(c *Ctx) {
 	serial := uint32(0x21000000) + uint32(c.Batch)<<20
 	next := func() uint32 { serial++; return serial }
 
-	baseS, _ := librarySockets(bindHex, listenHex)
+	censusIPs := []string{bindHex, listenHex}
+	for w := 0; w < 16; w++ {
+		censusIPs = append(censusIPs, ipHex(workerIP(c, w)))
+	}
+	baseS, _ := librarySockets(censusIPs...)
 	baseG, _ := libraryGoroutines()
 	if baseS != 0 || baseG != 0 {
 		c.Res.Inconcl(fmt.Sprintf("baseline not clean: %d library sockets, %d library goroutines", baseS, baseG))
@@ -528,11 +538,11 @@ func c09(c *Ctx) {
 				for done.Add(1) <= int64(total) && !hung.Load() {
 					b := pool[rr.Pick(len(pool))]
 					s := uint32(0x22000000) + uint32(c.Batch)<<20 + uint32(w)<<14 + uint32(rr.Pick(1<<14))
-					res := e.run(b, s, bindIP+":0")
+					res := e.run(b, s, workerIP(c, w)+":0")
 					if b.expect == "success" && res.err != "" && !res.hung {
 						// under parallel load a late wake-up of the client can eat the margin: confirm on a second attempt
 						c.Res.Count("leak-batch:retried-after-failure", 1)
-						res = e.run(b, s+1<<13, bindIP+":0")
+						res = e.run(b, s+1<<13, workerIP(c, w)+":0")
 					}
 					e.judge(res, int64(1000000+w), "leak-batch", 0)
 					if res.hung {
@@ -551,7 +561,7 @@ func c09(c *Ctx) {
 			}
 		}()
 		wg.Wait()
-		s, g, sd, gd := settle(3*time.Second, baseS, baseG, bindHex, listenHex)
+		s, g, sd, gd := settle(3*time.Second, baseS, baseG, censusIPs...)
 		c.Res.Count("leak-batch:calls", int64(total))
 		c.Res.Count("leak-batch:listener-cycles", int64(cycles))
 		c.Res.Max("max:library-sockets-after-batch", int64(s))
